@@ -12,6 +12,7 @@ import (
 
 	"github.com/dgraph-io/badger/v4/pb"
 	"github.com/dgraph-io/badger/v4/vshim/sched"
+	"github.com/dgraph-io/ristretto/v2/z"
 )
 
 type c38State struct {
@@ -196,6 +197,65 @@ func init() {
 				return "", "unexpected errors: " + strings.Join(st.errs, "; "), "unexpected-error"
 			}
 			return "returned", "", ""
+		},
+	})
+
+	// StreamWriter x commit: a commit whose write has been applied but whose commit timestamp is
+	// not yet marked done races PrepareIncremental/Prepare + Write + Flush.
+	registerSched(&schedScenario{
+		name:    "c38sw",
+		points:  []string{"op", "commit.applied", "commit.sent", "drop.block"},
+		horizon: 120 * time.Second,
+		setup: func(x *schedExec) {
+			o := smallOpts(x.dir)
+			o.NumCompactors = 2
+			x.db = mustOpen(o)
+			x.state = &c38State{}
+			if err := x.db.Update(func(txn *Txn) error { return txn.Set([]byte("pre"), []byte("v")) }); err != nil {
+				panic(err)
+			}
+		},
+		teardown: func(x *schedExec) { _ = x.db.Close() },
+		threads: func(x *schedExec) []sched.Thread {
+			st := x.state.(*c38State)
+			incremental := x.j.Int("case", 0)%2 == 0
+			return []sched.Thread{c38Commits(x, st, "A", 1, false), {Name: "SW", Body: func() {
+				x.s.Point("op")
+				sw := x.db.NewStreamWriter()
+				var err error
+				if incremental {
+					err = sw.PrepareIncremental()
+				} else {
+					err = sw.Prepare()
+				}
+				if err != nil {
+					st.note("prepare: %v", err)
+					sw.Cancel()
+					return
+				}
+				x.s.Point("op")
+				buf := z.NewBuffer(1<<10, "c38")
+				KVToBuffer(&pb.KV{Key: []byte("streamed"), Value: []byte("sv"), Version: 50, StreamId: 1}, buf)
+				err = sw.Write(buf)
+				_ = buf.Release()
+				if err != nil {
+					st.errs = append(st.errs, "sw.Write: "+err.Error())
+					sw.Cancel()
+					return
+				}
+				x.s.Point("op")
+				if err := sw.Flush(); err != nil {
+					st.errs = append(st.errs, "sw.Flush: "+err.Error())
+				}
+			}}}
+		},
+		check: func(x *schedExec) (string, string, string) {
+			st := x.state.(*c38State)
+			if len(st.errs) > 0 {
+				sort.Strings(st.errs)
+				return "", "unexpected errors: " + strings.Join(st.errs, "; "), "unexpected-error"
+			}
+			return "returned " + strings.Join(st.notes, ";"), "", ""
 		},
 	})
 }
